@@ -26,6 +26,18 @@ CHECKS = {
          "model checking (safety + liveness) + trace validation", "5 C07"),
  "C08": ("Round.tla / RoundTrace.tla", "TLC: MC of Round.tla for T in {2,3} with every panic point (NoStartBeforeAllGeneratedAndCleared, NoDropBeforeAllEnded, NoDeadlock, <>Final; the unguarded variant must deadlock); trace validation of multi-threaded runs incl. scripted panics on thread subsets",
          "model checking + trace validation; found and now guards finding F5", "5 C08"),
+ "C13": ("Runner.tla / Filters.tla / RunnerTrace.tla", "TLC trace validation: for every generated program x filter set (positional / --skip / --exact, regex subset with explicit AST) the set of printed nodes and of invoked cases is compared with Runner.tla's declarative selection on full display paths (per argument case; parents iff a selected case lies below); FilterSet::is_match in-crate against Filters.tla",
+         "TLC evaluates the declarative pipeline over generated programs executed by the real runner", "5 C13"),
+ "C14": ("Runner.tla / RunnerTrace.tla", "TLC trace validation: under --list, --list --format terse (NEXTEST=1) and Divan::list_benches no invoke/call event may occur; the set of terse lines must equal Runner.tla's would-run set (filters, ignore flags, inherited/overridden ignore); every listed path is fed back as the only --exact filter of a run that must execute exactly that case",
+         "TLC evaluates the declarative would-run set; round trips generated from the real listing", "5 C14"),
+ "C15": ("Runner.tla / Options.tla / RunnerTrace.tla", "TLC trace validation: effective options per benchmark (Options.tla: run time over benchmark over innermost group, per field, counters per kind) are compared with what the real loop saw (loop_begin event: size, remaining samples, min/max/skip, threads), call counts s*T*ceil(n/T), thread-count branches, counter rows and (ignored) marks; options set by CLI flag, DIVAN_* variable, builder call before/after parsing, attribute and up to three nested groups",
+         "TLC evaluates the declarative option resolution", "5 C15"),
+ "C16": ("Runner.tla / Names.tla / RunnerTrace.tla", "TLC trace validation: every adjacent pair of printed siblings (groups, benchmarks, generic instances, argument rows, thread-count rows) must be in a permitted non-descending order of Names.tla/Runner.tla's documented comparison for --sort/--sortr kind|name|location; comparator functions in-crate against Names.tla; MC_Names checks the order laws of the specification operators",
+         "TLC evaluates the documented order (set-valued where the statement leaves ties open)", "5 C16"),
+ "C17": ("Runner.tla / RunnerTrace.tla", "TLC trace validation: the k-th executed case must be the benchmark instance, argument, const and type the k-th runnable printed row names (after filtering, sorting, reversal), and an argument list is evaluated at most once per process and shared by the generic instances",
+         "identity of (label, received value) pairs logged by generated benchmark bodies", "5 C17"),
+ "C20": ("Runner.tla / RunnerTrace.tla", "TLC trace validation: the printed tree is parsed back from glyph groups alone (depth, branch/corner vs. later siblings, vertical bars vs. ancestors), must contain each selected group/benchmark/argument/thread-count row exactly once in sorted depth-first order, (ignored) marks only on ignored benchmarks, samples/iters cells equal to the statistics the runner computed, continuation rows attached to a benchmark",
+         "parse-back and comparison done by TLC on lexed lines", "5 C20"),
  "C19": ("Loop.tla / LoopTrace.tla / MC_Loop", "TLC: MC_Loop (SizesArePowersOfTwo, ThresholdRule, EarlierSamplesDiscarded, BudgetCoversTuning); trace validation of tuned runs: every tuning step recomputed from the logged readings and the scripted precision",
          "model checking + trace validation", "5 C19"),
 }
